@@ -82,10 +82,11 @@ Definition comp_interface_list (g : graph) (c : N) : list N := owner_cps g c.
 Definition node_interface_list (g : graph) (n : N) : list N :=
   owner_cps g n ++ flat_map (comp_interface_list g) (first_neighbor g n RHas CComp).
 
-(* NetworkService.disconnect_interface(i): returns the removed service port, if any *)
+(* NetworkService.disconnect_interface(i): only a ServicePort peer is removed (fix 13b815d);
+   returns the removed service port, if any *)
 Definition disconnect_interface (i : N) : M (option N) :=
   _ <- need_node i ;;
-  p <- m_get (fun g => get_peers g i) ;;
+  p <- m_get (fun g => get_peers_typed g i T_ServicePort) ;;
   match p with
   | None | Some [] => ret None
   | Some [x] => remove_cp_and_links x true ;;; ret (Some x)
@@ -106,6 +107,12 @@ Definition disconnect_peers_of (i : N) : M unit :=
       end
   | Some _ => fail ETopology
   end.
+
+(* Topology._disconnect_from_services(interfaces): each interface and, through the Interface handle built
+   before the loop, the sub-interfaces of a DedicatedPort (fix edd75a8) *)
+Definition with_children (g : graph) (i : N) : list N :=
+  i :: (if N.eqb (type_of g i) T_DedicatedPort then first_neighbor g i RConnects CCP else []).
+Definition disc_list (g : graph) (ifs : list N) : list N := flat_map (with_children g) ifs.
 
 Definition uniq (l : list N) (none many : exn) : M N :=
   match l with
@@ -128,7 +135,7 @@ Definition topo_nodes (g : graph) (name : N) : list N :=   (* Topology.nodes: Fa
 Definition api_remove_node (name : N) : M unit :=
   cands <- m_get (fun g => topo_nodes g name) ;;
   n <- uniq cands ETopology EAmbig ;;
-  ifs <- m_get (fun g => node_interface_list g n) ;;
+  ifs <- m_get (fun g => disc_list g (node_interface_list g n)) ;;
   for_each_set disconnect_peers_of ifs ;;;
   all <- m_get (fun g => by_name g CNode name) ;;
   n' <- uniq all EQuery EQuery ;;
@@ -139,7 +146,7 @@ Definition api_remove_facility (name : N) : M unit :=
   n <- uniq all EQuery EQuery ;;
   t <- m_get (fun g => type_of g n) ;;
   guard (N.eqb t T_Facility) ETopology ;;;
-  ifs <- m_get (fun g => node_interface_list g n) ;;
+  ifs <- m_get (fun g => disc_list g (node_interface_list g n)) ;;
   for_each_set disconnect_peers_of ifs ;;;
   all' <- m_get (fun g => by_name g CNode name) ;;
   n' <- uniq all' EQuery EQuery ;;
@@ -167,7 +174,7 @@ Definition api_remove_component (n : N) (cname : N) : M unit :=
   need_class n CNode ;;;
   cs <- m_get (fun g => child_by_name g (first_neighbor g n RHas CComp) cname) ;;
   c <- uniq cs EQuery EAmbig ;;
-  ifs <- m_get (fun g => comp_interface_list g c) ;;
+  ifs <- m_get (fun g => disc_list g (comp_interface_list g c)) ;;
   for_each_set disconnect_peers_of ifs ;;;
   remove_component c.
 
@@ -187,7 +194,7 @@ Definition api_disconnect (i : N) (c : list N) : M (list N) :=
   | Some x => ret (removeN x c)
   end.
 
-(* NetworkService.remove_interface(name=) : substrate topologies only; the cache is not touched *)
+(* NetworkService.remove_interface(name=) : substrate topologies only; the cache drops the interface (fix 4c6e5fb) *)
 Definition api_remove_interface (experiment : bool) (s : N) (iname : N) (c : list N) : M (list N) :=
   guard (negb experiment) ETopology ;;;
   x <- need_node s ;;
@@ -195,57 +202,43 @@ Definition api_remove_interface (experiment : bool) (s : N) (iname : N) (c : lis
   is_ <- m_get (fun g => child_by_name g (first_neighbor g s RConnects CCP) iname) ;;
   i <- uniq is_ EQuery EAmbig ;;
   remove_cp_and_links i true ;;;
-  ret c.
+  ret (removeN i c).
 
-(* Interface.remove_child_interface(name=) through a port handle p with cache c: not touched either *)
+(* Interface.remove_child_interface(name=) through a port handle p with cache c: the child is first disconnected
+   from the service it is connected to (fix edd75a8), the cache drops it (fix 4c6e5fb) *)
 Definition api_remove_child (p : N) (iname : N) (c : list N) : M (list N) :=
   x <- need_node p ;;
   guard (N.eqb (ntyp x) T_DedicatedPort) EAssert ;;;
   guard (cls_eqb (ncls x) CCP) EQuery ;;;
   is_ <- m_get (fun g => child_by_name g (first_neighbor g p RConnects CCP) iname) ;;
   i <- uniq is_ EQuery EAmbig ;;
+  disconnect_peers_of i ;;;
   remove_cp_and_links i false ;;;
-  ret c.
+  ret (removeN i c).
 
-(* ---- unpeer: nx.shortest_path over all edges, then sp[1] and sp[-2] ---- *)
-Definition all_nbrs (g : graph) (n : N) : list N := dedup (map fst (nbrs g n)).
-
-(* breadth-first levels: level 0 = [src]; fuel = number of nodes *)
-Fixpoint bfs_levels (g : graph) (fuel : nat) (seen frontier : list N) : list (list N) :=
-  match fuel with
-  | O => []
-  | S k =>
-      match frontier with
-      | [] => []
-      | _ => let next := dedup (filter (fun x => negb (memN x seen)) (flat_map (all_nbrs g) frontier)) in
-             frontier :: bfs_levels g k (seen ++ next) next
-      end
+(* ---- unpeer (fix 13b815d): nx.shortest_path over the `connects` edges only; the services peer iff that
+   path has exactly 5 nodes (service - port - link - port - service); then sp[1] and sp[-2] are removed.
+   "The shortest path has 5 nodes" = the ends differ, there is no chain of 1, 2 or 3 connects edges, and
+   there is one of 4; every 4-chain is then a shortest path, so the candidates for (sp[1], sp[-2]) are the
+   (first, last) inner nodes of the 4-chains. ---- *)
+Definition cn (g : graph) (n : N) : list N :=
+  dedup (map fst (filter (fun p => rel_eqb (snd p) RConnects) (nbrs g n))).
+Definition reach1 (g : graph) (a b : N) : bool := memN b (cn g a).
+Definition reach2 (g : graph) (a b : N) : bool := existsb (fun x => reach1 g x b) (cn g a).
+Definition reach3 (g : graph) (a b : N) : bool := existsb (fun x => reach2 g x b) (cn g a).
+Definition chains4 (g : graph) (a b : N) : list (N * N) :=
+  flat_map (fun x => flat_map (fun m => flat_map (fun y => if reach1 g y b then [(x, y)] else []) (cn g m)) (cn g x))
+           (cn g a).
+Definition pair_eqb (p q : N * N) : bool := N.eqb (fst p) (fst q) && N.eqb (snd p) (snd q).
+Fixpoint dedup_pairs (l : list (N * N)) : list (N * N) :=
+  match l with
+  | [] => []
+  | x :: r => if existsb (pair_eqb x) r then dedup_pairs r else x :: dedup_pairs r
   end.
-Fixpoint level_of (x : N) (ls : list (list N)) (d : nat) : option nat :=
-  match ls with
-  | [] => None
-  | l :: r => if memN x l then Some d else level_of x r (S d)
-  end.
-Definition dist (g : graph) (a b : N) : option nat :=
-  level_of b (bfs_levels g (S (length (gnodes g))) [a] [a]) 0.
-
-(* the possible sp[1] (neighbours of a one step closer to b) and sp[-2] *)
-Definition sp_second (g : graph) (a b : N) (len : nat) : list N :=
-  filter (fun x => match dist g x b with Some d => Nat.eqb (S d) len | None => false end) (all_nbrs g a).
-
-(* the (sp[1], sp[-2]) pairs some shortest path a..b could yield; None = no path; [] only for a = b *)
+(* None = "do not peer" (TopologyException) *)
 Definition unpeer_ends (g : graph) (a b : N) : option (list (N * N)) :=
-  match dist g a b with
-  | None => None
-  | Some O => Some []
-  | Some len =>
-      Some (flat_map (fun x => map (fun y => (x, y))
-                     (filter (fun y => match dist g x y with
-                                       | Some d => Nat.eqb (S (S d)) len || (Nat.eqb len 1 && N.eqb x b && N.eqb y a)
-                                       | None => false end)
-                             (sp_second g b a len)))
-                     (sp_second g a b len))
-  end.
+  if N.eqb a b || reach1 g a b || reach2 g a b || reach3 g a b then None
+  else match dedup_pairs (chains4 g a b) with [] => None | l => Some l end.
 
 Definition api_unpeer_with (xy : N * N) (ca cb : list N) : M (list N * list N) :=
   remove_cp_and_links (fst xy) true ;;;
@@ -256,10 +249,9 @@ Definition api_unpeer (a b : N) (ca cb : list N) : M (list N * list N) :=
   _ <- need_node a ;; _ <- need_node b ;;
   e <- m_get (fun g => unpeer_ends g a b) ;;
   match e with
-  | None => fail ETopology                         (* "do not peer" *)
-  | Some [] => fail EIndex                         (* sp = [a]: sp[1] *)
+  | None | Some [] => fail ETopology               (* "do not peer" *)
   | Some [xy] => api_unpeer_with xy ca cb
-  | Some _ => fail EAmbig                          (* several shortest paths: networkx picks one *)
+  | Some _ => fail EAmbig                          (* peered more than once: networkx picks one path *)
   end.
 
 (* ---- prune(reservation_state): nmark says "this element's reservation state matches" ---- *)
